@@ -158,10 +158,15 @@ class LineFileBase(SeqProp):
                         f.insert(int(w[1]), wrap(dec_str(w[2]))); out.append("ok")
                     elif k == "append":
                         f.append(wrap(dec_str(w[1]))); out.append("ok")
-                    elif k == "extend":
-                        f.extend([wrap(dec_str(x)) for x in w[1:]]); out.append("ok")
-                    elif k == "iadd":
-                        f += [wrap(dec_str(x)) for x in w[1:]]; out.append("ok")
+                    elif k in ("extend", "iadd"):
+                        vals = [wrap(dec_str(x)) for x in w[1:]]
+                        # like list.extend / +=: any iterable, one-shot ones included
+                        arg = [vals, tuple(vals), iter(vals), (x for x in vals), map(lambda x: x, vals)][(len(vals) + len(out)) % 5]
+                        if k == "extend":
+                            f.extend(arg)
+                        else:
+                            f += arg
+                        out.append("ok")
                     elif k == "pop":
                         out.append("ret " + enc_str(unwrap(f.pop(int(w[1])))))
                     elif k == "remove":
@@ -400,8 +405,18 @@ class C11Prop(LineFileBase):
                     body.append("iter_new"); niter += 1
                 elif q < 0.9 and niter:
                     body.append(f"iter_next {rng.randrange(niter)}")
-                elif q < 0.95:
+                elif q < 0.93:
                     body.append("len")
+                elif q < 0.97:
+                    # a second session on the same object (`with f:` twice): state kept across close/open must not leak
+                    body.append("close")
+                    if rng.random() < 0.2:
+                        body.append(f"get {ri()}")  # a read on the closed object
+                    body.append("open")
+                    if rng.random() < 0.6 and nl:
+                        # the line that physically follows the last one read before the close
+                        last = [int(b.split()[1]) for b in body if b.startswith("get ")]
+                        body.append(f"get {(last[-1] + 1) if last and -nl <= last[-1] + 1 < nl else ri()}")
                 else:
                     body.append("lines")
             yield self.mk(variant, content, index, body)
